@@ -566,6 +566,11 @@ def check(run):
     r01c(run)
     r01d(run)
     r01e(run)
+    # shared with C10 / C11: the options in effect are the ones that were written - a merge can only switch an unsafe
+    # option back off if explicitly passed options are recorded whatever their value
+    from . import c10
+    run.rules_run.append("R10h")
+    c10.r10h(run)
     # a recorded error must reach the context its owner flushes, otherwise the raw value is returned (shared with C10)
     from . import c10
     run.rules_run.append("R10e")
